@@ -58,6 +58,21 @@ Definition bytes_probe : list (list N) := map s2n [
   "'it\'s'"; "'a\nb'"; "'A'"; "h'00'"; "H'00'"; "b64'AQ=='"; "B64'AQ=='"; "h""00"""; "H""00"""; "b64""AQ"""; "''"; "'"; "h'"; "'a''";
   "'a\\'"; "h'0g'" ]%string.
 
+(* the same comparisons for the extracted oracle, where larger bounds are cheap: class index -> check at length n *)
+Definition token_sweep (k : N) (n : nat) : bool :=
+  match k with
+  | 0 => agree_upto r_uint_value g_spec n_uint sig_uint n
+  | 1 => agree_upto r_occur g_spec n_occur sig_occur n
+  | 2 => agree_upto r_number g_number n_number sig_number n
+  | 3 => agree_upto r_id g_id n_idns sig_id n
+  | 4 => agree_upto r_text_value g_text n_text sig_text n
+  | 5 => agree_upto r_bytes_value g_bytes n_bytes sig_bytes n
+  | 6 => agree_upto r_cddl g_blank n_cddl sig_blank n
+  | 7 => agree_all r_control_op g_ctl n_ctlop ctl_probe
+  | 8 => agree_all r_text_value g_text n_text text_probe && agree_all r_bytes_value g_bytes n_bytes bytes_probe
+  | _ => false
+  end.
+
 (* the control-name alternatives of the generated grammar *)
 Fixpoint alt_strings (e : pexpr) : list (list N) :=
   match e with
